@@ -163,6 +163,10 @@ def parse_selection(node, frame, resolve):
     base = cur.value
     if isinstance(base, ast.Name) and base.id == frame:
         return Sel(frame, set(), col, reducer)
+    if isinstance(base, ast.Name):
+        r = resolve(base)       # rows = df[P]  ...  rows[C]
+        if isinstance(r, tuple) and r[:1] == ("fframe",):
+            return Sel(frame, set(r[1]), col, reducer)
     if isinstance(base, ast.Subscript) and isinstance(base.value, ast.Name) and base.value.id == frame:
         conds = parse_pred(base.slice, frame, resolve)
         if conds is None:
